@@ -89,6 +89,7 @@ type HostSpec struct {
 	Mirrors    []int  `json:"mirrors,omitempty"`
 	Priority   int    `json:"priority,omitempty"`
 	Unused     bool   `json:"unused,omitempty"`      // configured, never addressed by an operation
+	StaleCfg   bool   `json:"stale_cfg,omitempty"`   // with AlsoDocker: the host entry carries an OLDER password / identity token of the same user (rotated since), the docker config file the current ones; both generations are secrets of this registry
 	AlsoDocker bool   `json:"also_docker,omitempty"` // Cfg host: the same credentials are ALSO in the docker config file (https:// key, loaded later: TLS becomes enabled)
 	DupKey     bool   `json:"dup_key,omitempty"`     // Cfg docker: a second accepted spelling of the same host with the same credentials
 	DupMirror  bool   `json:"dup_mirror,omitempty"`  // every mirror is listed twice
@@ -279,6 +280,22 @@ func (c *Case) account(i int) *account {
 	}
 	o := fmt.Sprintf("host%d", i)
 	return &account{User: c.secretVal(o, "user"), Pass: c.secretVal(o, "pass"), IDToken: c.secretVal(o, "idtoken")}
+}
+
+// oldAccount: the previous generation of registry i's credentials (same user, rotated password and identity token).
+func (c *Case) oldAccount(i int) *account {
+	a := c.account(i)
+	if a == nil {
+		return nil
+	}
+	o := fmt.Sprintf("host%d-old", i)
+	return &account{User: a.User, Pass: c.secretVal(o, "pass"), IDToken: c.secretVal(o, "idtoken")}
+}
+
+// staleCfg: host i is configured twice, first with the old generation of its credentials.
+func (c *Case) staleCfg(i int) bool {
+	h := &c.Hosts[i]
+	return h.Kind == "registry" && h.Cfg == "host" && h.StaleCfg && h.AlsoDocker && h.CfgName == "" && (h.CredKind == "userpass" || h.CredKind == "token" || h.CredKind == "both")
 }
 
 func (c *Case) decoyAccount(n int) *account {
